@@ -268,6 +268,10 @@ func (e *Enc) recFrameInstances(rd *recDef, args []Val, terms []string, st *Stat
 			}
 			cur = prev
 		}
+		// the peeling is cumulative across the element memories: the next key's instances are stated over the oldest version of
+		// this one, so that the chain (cur,cur) -> (prev,cur) -> (prev,prev) is complete
+		terms = append([]string{}, terms...)
+		terms[kpos] = cur
 	}
 }
 
